@@ -163,4 +163,71 @@ example : ValidFrom [0, 1] [2, 1] (editScript [0, 1] [2, 1]) 0 0 ∧
   rw [this]
   simp [ValidFrom, IsSpan]
 
+/-! ## the tie to the source -/
+
+/-- **C11_current.**  The facts regenerated from `slice/edit.go` (`Gen.Edit`, `extract/edit.go`) are the pinned
+ones, and the extractor recognised the statement skeleton of `LCSFunc`, `editScriptFunc`, `LCS`, `EditScript`
+(the two scans, the `eq` calls, the `Edit` literals and the advance statements as text).  `Model.Edit` is built
+from these definitions (the ones marked *position* are not: the model represents `i`, `j`, `lpos`, `rpos` by
+list suffixes, so they are tied by this theorem alone), so the C11/C12/C13 theorems are about the expressions
+that are in the source now; a one-token change in any of them changes `Gen/Edit.lean` and this theorem (and the
+`*_def` / `*_cons` lemmas of `Proofs.Lcs`, `Proofs.EditScript`) no longer compile. -/
+theorem C11_current :
+    Gen.Edit.recognised = true ∧
+    -- LCSFunc: nil guard, swap test, buffers
+    (∀ la lb, Gen.Edit.lcsNil la lb = (decide (la = 0) || decide (lb = 0))) ∧
+    (∀ la lb, Gen.Edit.lcsSwaps la lb = decide (lb < la)) ∧
+    (∀ la, Gen.Edit.pBufLen la = la + 1) ∧
+    (∀ la, Gen.Edit.cBufLen la = la + 1) ∧
+    -- LCSFunc: loop bounds and the operands of `eq(as[i-1], bs[j-1])` (position)
+    Gen.Edit.rowFirst = 1 ∧ (∀ j lb, Gen.Edit.rowGoes j lb = decide (j ≤ lb)) ∧
+    Gen.Edit.colFirst = 1 ∧ (∀ i la, Gen.Edit.colGoes i la = decide (i ≤ la)) ∧
+    (∀ i, Gen.Edit.matchA i = i - 1) ∧ (∀ j, Gen.Edit.matchB j = j - 1) ∧
+    -- LCSFunc: `c[i] = &seq{i - 1, p[i-1].n + 1, p[i-1]}`
+    (∀ i, Gen.Edit.matchI i = i - 1) ∧
+    (∀ pPrev cPrev pCur, Gen.Edit.matchCount pPrev cPrev pCur = pPrev + 1) ∧
+    Gen.Edit.matchPrev = .pPrev ∧
+    -- LCSFunc: `else if c[i-1].n >= p[i].n { c[i] = c[i-1] } else { c[i] = p[i] }`
+    (∀ pPrev cPrev pCur, Gen.Edit.tieTest pPrev cPrev pCur = decide (cPrev ≥ pCur)) ∧
+    Gen.Edit.tieThen = .cPrev ∧ Gen.Edit.tieElse = .pCur ∧
+    -- LCSFunc: the walk from `c[len(as)]` while `p.n > 0`, then `slices.Reverse`
+    (∀ la, Gen.Edit.lastIdx la = la) ∧
+    (∀ n, Gen.Edit.walkGoes n = decide (n > 0)) ∧
+    Gen.Edit.reverses = true ∧
+    -- editScriptFunc: loop test (position), the gap
+    (∀ i n, Gen.Edit.loopGoes i n = decide (i < n)) ∧
+    (∀ lpos lend rpos rend, Gen.Edit.gapReplace lpos lend rpos rend = (decide (lend > lpos) && decide (rend > rpos))) ∧
+    (∀ lpos lend rpos rend, Gen.Edit.gapReplaceRpos lpos lend rpos rend = rend) ∧
+    (∀ lpos lend rpos rend, Gen.Edit.gapDrop lpos lend rpos rend = decide (lend > lpos)) ∧
+    (∀ lpos lend rpos rend, Gen.Edit.gapCopy lpos lend rpos rend = decide (rend > rpos)) ∧
+    -- editScriptFunc: the run extension (bound and operands: position) and the Emit
+    Gen.Edit.runFirst = 1 ∧
+    (∀ i m n, Gen.Edit.runBound i m n = decide (i + m < n)) ∧
+    (∀ pos m, Gen.Edit.runLhsIdx pos m = pos + m) ∧ (∀ pos m, Gen.Edit.runRhsIdx pos m = pos + m) ∧
+    Gen.Edit.emitFrom = .lhs ∧ (∀ pos m, Gen.Edit.emitLo pos m = pos) ∧ (∀ pos m, Gen.Edit.emitHi pos m = pos + m) ∧
+    -- editScriptFunc: the trailing gap (`lend`/`rend` = `len(lhs)`/`len(rhs)`)
+    (∀ lpos lend rpos rend, Gen.Edit.tailReplace lpos lend rpos rend = (decide (lend > lpos) && decide (rend > rpos))) ∧
+    (∀ lpos lend rpos rend, Gen.Edit.tailReplaceRpos lpos lend rpos rend = rend) ∧
+    (∀ lpos lend rpos rend, Gen.Edit.tailDrop lpos lend rpos rend = decide (lend > lpos)) ∧
+    (∀ lpos lend rpos rend, Gen.Edit.tailCopy lpos lend rpos rend = decide (rend > rpos)) ∧
+    -- editScriptFunc: `if len(out) == 1 && out[0].Op == OpEmit { return nil }`; the opcode bytes
+    (∀ n, Gen.Edit.singleLen n = decide (n = 1)) ∧
+    Gen.Edit.singleOp = .emit ∧
+    (Gen.Edit.opByte .drop = 45 ∧ Gen.Edit.opByte .emit = 61 ∧ Gen.Edit.opByte .copy = 43 ∧
+      Gen.Edit.opByte .replace = 33) :=
+  ⟨rfl, fun _ _ => rfl, fun _ _ => rfl, fun _ => rfl, fun _ => rfl,
+   rfl, fun _ _ => rfl, rfl, fun _ _ => rfl, fun _ => rfl, fun _ => rfl,
+   fun _ => rfl, fun _ _ _ => rfl, rfl,
+   fun _ _ _ => rfl, rfl, rfl,
+   fun _ => rfl, fun _ => rfl, rfl,
+   fun _ _ => rfl,
+   fun _ _ _ _ => rfl, fun _ _ _ _ => rfl, fun _ _ _ _ => rfl, fun _ _ _ _ => rfl,
+   rfl, fun _ _ _ => rfl, fun _ _ => rfl, fun _ _ => rfl,
+   rfl, fun _ _ => rfl, fun _ _ => rfl,
+   fun _ _ _ _ => rfl, fun _ _ _ _ => rfl, fun _ _ _ _ => rfl, fun _ _ _ _ => rfl,
+   fun _ => rfl, rfl, ⟨rfl, rfl, rfl, rfl⟩⟩
+
+/-- the model's opcode bytes are the declared constants -/
+example : [EditOp.drop, .emit, .copy, .replace].map EditOp.char = ['-', '=', '+', '!'] := by decide
+
 end MdsVerif.Props.C11
